@@ -3,6 +3,7 @@ CONSTANTS
   MODE = "pads"
   PADS_AB = {0, 1, 256, 511}
   PADS_CD = {0}
+  PADS_FRAG = {}
   FULLFR = TRUE
 INVARIANT Inv
 CHECK_DEADLOCK TRUE
